@@ -69,7 +69,8 @@ def run_cascade(case, d, k, sched, real=False):
             cascade_images(pio, case["depth"], averaging_merger, parallel=k, **kw)
     else:
         world = SimWorld(sched)
-        w, res = scen.run_sim(lambda: cascade_images(pio, case["depth"], averaging_merger, parallel=k, **kw), None, world=world)
+        with scen.fs_yields(world):
+            w, res = scen.run_sim(lambda: cascade_images(pio, case["depth"], averaging_merger, parallel=k, **kw), None, world=world)
         if res["status"] == "hang":
             raise Violation("cascade", f"parallel cascade never returns: {res['hang']}")
         if res["status"] == "raised":
